@@ -197,8 +197,50 @@ def work_init(tier):
     _FN = path_join_safe
 
 
+REL_ROOTS = ["rel/root", "static", "./static/", "", ".", "../shared", "a/../static"]
+
+
+def chdir_work(arg):
+    """process history: a relative root means 'relative to the working directory NOW'.  The same (root, name) calls are
+    made in one working directory, again after the process changed its working directory, and again after it went back;
+    every result is judged against abspath(root) at the time of the call."""
+    import shutil
+    import tempfile
+    import itertools as _it
+    order = arg[1]
+    counts = core.Counter()
+    viols = {}
+    n = 0
+    old = os.getcwd()
+    base = tempfile.mkdtemp(prefix="c17cwd")
+    try:
+        dirs = [os.path.join(base, "deploy_a"), os.path.join(base, "deploy_b", "nested"), os.path.join(base, "deploy_a")]
+        for d in dirs:
+            os.makedirs(d, exist_ok=True)
+        small = list(_it.islice(names("quick"), 0, 4000, 13)) + ["", "index.html", "a/b", "../x", "/etc/passwd"]
+        for step, d in enumerate(dirs if order == 0 else dirs[::-1][1:] + dirs[:1]):
+            os.chdir(d)
+            for root in REL_ROOTS + [ROOTS[0]]:
+                for name in small + list(_it.islice(root_relative_names(root), 0, 40)):
+                    n += 1
+                    bad, cls = verdict(root, name, _FN)
+                    counts.inc("cwd-step%d:%s" % (step, cls))
+                    if bad is not None:
+                        oracle, sig, msg = bad
+                        key = (oracle, sig + (" (relative root, after the process changed its working directory)" if step else " (relative root)"))
+                        if key not in viols:
+                            viols[key] = [0, {"family": "chdir", "order": order}, msg + " [working directory %s, step %d]" % (d[len(base):], step)]
+                        viols[key][0] += 1
+    finally:
+        os.chdir(old)
+        shutil.rmtree(base, ignore_errors=True)
+    return n, dict(counts), viols, 0
+
+
 def work(arg):
     """one worker = one (root, residue class of names)"""
+    if arg[0] == "chdir":
+        return chdir_work(arg)
     root, k, nparts = arg
     counts = core.Counter()
     viols = {}
@@ -296,7 +338,7 @@ def _samples(tier, caps):
 def run(tier, seed):
     rep = core.Report()
     nparts = 4
-    jobs = [(root, k, nparts) for root in ROOTS for k in range(nparts)]
+    jobs = [(root, k, nparts) for root in ROOTS for k in range(nparts)] + [("chdir", 0, 0), ("chdir", 1, 0)]
     if seed:
         jobs = jobs[seed % len(jobs):] + jobs[:seed % len(jobs)]
     results = core.pmap("checks.c17", "work", jobs, initargs=(tier,))
@@ -388,6 +430,14 @@ def run(tier, seed):
 
 
 def replay(witness):
+    if witness.get("family") == "chdir":
+        work_init("quick")
+        n, counts, viols, _ = chdir_work(("chdir", witness.get("order", 0), 0))
+        return [core.Violation(o, sg, witness, v[2]) for (o, sg), v in viols.items()]
+    return _replay_name(witness)
+
+
+def _replay_name(witness):
     work_init("quick")
     bad, cls = verdict(witness["root"], witness["name"], _FN)
     if bad is None:
